@@ -1527,7 +1527,7 @@ fn main() {
             let seed: u64 = args.get(2).and_then(|s| s.parse().ok()).unwrap_or(1);
             let thorough = args.get(3).map(|s| s == "thorough").unwrap_or(false);
             let tier = if thorough { "thorough" } else { "quick" };
-            let scripts: u64 = if thorough { 1000 } else { 120 };
+            let scripts: u64 = if thorough { 3000 } else { 120 };
             let seed_s = seed.to_string();
             use rotov_harness::worker::{Ended, run_batches};
             run_batches(
